@@ -239,6 +239,12 @@ def c02(tier, rng):
     for r in CONNACK_R:
         add("connect ; deliver " + hx(M.connack(0, r, [(31, b"rs"), (28, b"ref")] if r else [])), ["connack", "reason"])
     add("connect ; deliver " + hx(M.connack(1, 0)), ["connack", "sp"])
+    for r in (128, 135, 157):
+        for sia in (0, 1):
+            add("connect ; deliver " + hx(M.connack(0, r, [(41, sia), (31, b"no"), (38, (b"k", b"1")), (28, b"other"), (38, (b"k", b"2"))])),
+                ["connack", "refusal-with-capabilities"])
+            add("connect am=6d ad=01 ; deliver %s ; auth r=24 am=6d ad=02 ; deliver %s" % (
+                hx(M.auth(24, [(21, b"m")])), hx(M.connack(0, r, [(40, 0), (41, sia), (42, 0), (31, b"no")]))), ["connack", "refusal-with-capabilities", "via-auth"])
     for i, vals in CONNACK_PROPS.items():
         for v in vals:
             add("connect ; deliver " + hx(M.connack(0, 0, [(i, v)])), ["connack", "single"])
@@ -384,6 +390,17 @@ def c03(tier, rng):
             pts = sorted(set(rng.randrange(1, len(stream)) for _ in range(k)))
             cuts = list(zip([0] + pts, pts + [len(stream)]))
             add(stream, cuts, ["random"], tail, hold=rng.random() < 0.2)
+    # a packet ending exactly at, just before or just after the 512 / 1024 / 1536 byte steps of the receive buffer, followed
+    # by a PINGRESP (2 bytes) or a short PUBACK in the same transport segment
+    for total in list(range(505, 518)) + list(range(1017, 1030)) + list(range(1530, 1541)):
+        first = M.publish(b"t", bytes((i * 5) % 251 for i in range(total - 9)), ps=[(11, 1)])
+        assert len(first) == total, (len(first), total)
+        for follow in (M.pingresp(), M.puback(77), M.pingresp() + M.publish(b"t", b"z", ps=[(11, 1)])):
+            stream = first + follow
+            add(stream, [(0, len(stream))], ["bufstep"], " ; pollstream 0 ; pollstream 0 ; pollstream 0")
+            if total % 4 == 1:
+                add(stream, [(0, 512), (512, len(stream))] if len(stream) > 512 else [(0, len(stream))], ["bufstep", "cut512"],
+                    " ; pollstream 0 ; pollstream 0 ; pollstream 0")
     # one poll going through tens of thousands of reads: a large packet whose bytes are all available but handed
     # out by the transport in tiny pieces (the depth of whatever the framing code does per read becomes visible)
     for L, piece in ([(12000, 1), (30000, 3)] if tier == "quick" else [(12000, 1), (30000, 3), (24000, 1), (60000, 2)]):
@@ -486,6 +503,16 @@ def c04(tier, rng):
                    ("pubcomp", M.pubcomp(7, 146)), ("pubrel", M.pubrel(7, 146))):
         out.append(case("stray-%s" % nm, PRE + " ; deliver %s ; deliver %s ; start 0 0 pub q=1 t=61 ; poll 0 ; deliver %s ; poll 0"
                         % (hx(pk), hx(pk), hx(M.puback(1))), ["stray-ack"]))
+    acks = {"puback": M.puback, "pubrec": M.pubrec, "pubcomp": M.pubcomp, "pubrel": M.pubrel,
+            "suback": lambda pid: M.suback(pid, [0]), "unsuback": lambda pid: M.unsuback(pid, [0])}
+    pend = {"pub1": ("pub q=1 t=61", "puback"), "pub2": ("pub q=2 t=61", "pubrec"), "sub": ("sub f=61:0000", "suback"),
+            "unsub": ("unsub f=61", "unsuback")}
+    for kind, (start, right) in pend.items():
+        for wrong in acks:
+            if wrong == right:
+                continue
+            out.append(case("wrongtype-%s-%s" % (kind, wrong), PRE + " ; start 0 0 %s ; poll 0 ; deliver %s ; poll 0 ; deliver %s ; poll 0 ; poll 0"
+                            % (start, hx(acks[wrong](1)), hx(acks[right](1))), ["wrongtype"]))
     # a large packet (valid, and one with a malformed tail) all available at once but read a byte at a time
     for nm, big in (("ok", M.publish(b"a", bytes(i % 251 for i in range(12000)), ps=[(11, 1)])),
                     ("bad", M.packet(0x30, M.binf(b"a") + b"\x00" * 9000)[:-1] + b"\xff" + b"\x40\xff\xff\xff\xff\x7f")):
